@@ -21,3 +21,5 @@ def register(prop, rules, explanation, assumptions, level="other", trusted_base=
 
 
 from . import own_rules, c05, c06, c07, c08, c10, c12, c14, c15, c16, c19, flow_rules, spline_rules, c20, ld_rules  # noqa: E402,F401
+from . import junction  # noqa: E402,F401
+from . import shared_rules  # noqa: E402,F401  (appends to the rule lists registered above)
